@@ -91,7 +91,8 @@ def check(repo: Repo, rep: Report) -> None:
     ok = any(isinstance(s.node, ast.Return) and u(s.node.value) == "to_async(func, scheduler)()" for s in sites(st))
     rep.ob("T2-wiring", st, "start_ = to_async(func, scheduler)()", ok, "start no longer delegates to to_async(func, scheduler)()")
     sa = repo.fn(SA, "start_async_")
-    ok = any(isinstance(s.node, ast.Return) and u(s.node.value) == "from_future(future)" for s in sites(sa)) and \
+    futs = [u(s.node.targets[0]) for s in sites(sa) if isinstance(s.node, ast.Assign) and u(s.node.value) == f"{sa.params[0]}()" and s.ctx.tries]
+    ok = bool(futs) and any(isinstance(s.node, ast.Return) and u(s.node.value) == f"from_future({futs[0]})" for s in sites(sa)) and \
         any(isinstance(s.node, ast.Return) and u(s.node.value) == "throw(ex)" and s.ctx.handlers for s in sites(sa))
     rep.ob("T2-wiring", sa, "start_async_: from_future(function_async()) / throw(ex)", ok,
            "start_async does not bridge the returned future (or a failing factory) correctly")
